@@ -1794,6 +1794,9 @@ def _readvalue(sock: socket.socket, buf: bytes, size: int):
     return buf[rlen:], b"".join(chunks)
 
 
+_ERROR_REPLIES = (b"ERROR", b"CLIENT_ERROR", b"SERVER_ERROR")
+
+
 def _readsegment(
     sock: socket.socket, buf: bytes, end_tokens: bytes
 ) -> tuple[bytes, bytes]:
@@ -1820,14 +1823,22 @@ def _readsegment(
     search_from = 0
 
     while True:
-        tokens_pos = buf.find(end_tokens, search_from)
-        if tokens_pos != -1:
-            before, after = buf[:tokens_pos], buf[tokens_pos + len(end_tokens) :]
-            return after, before
+        if buf.startswith(_ERROR_REPLIES):
+            # An error reply is a single line and is never followed by
+            # end_tokens: hand it to the caller instead of waiting for a
+            # timeout.
+            eol = buf.find(b"\r\n")
+            if eol != -1:
+                return buf[eol + 2 :], buf[:eol]
+        elif not any(word.startswith(buf) for word in _ERROR_REPLIES):
+            tokens_pos = buf.find(end_tokens, search_from)
+            if tokens_pos != -1:
+                before, after = buf[:tokens_pos], buf[tokens_pos + len(end_tokens) :]
+                return after, before
+            # Keep what was received so far: the segment may span several
+            # chunks and the end_tokens may straddle the boundary of two.
+            search_from = max(0, len(buf) - len(end_tokens) + 1)
 
-        # Keep what was received so far: the segment may span several chunks
-        # and the end_tokens may straddle the boundary of two of them.
-        search_from = max(0, len(buf) - len(end_tokens) + 1)
         chunk = _recv(sock, RECV_SIZE)
         if not chunk:
             raise MemcacheUnexpectedCloseError()
